@@ -20,7 +20,19 @@ DeadRemoval maps every destination back through expr_to_original_expr
 answers SSA names (IRAOutRegs of test/analysis/unssa.py) makes the shipped
 DeadRemoval drop the return value and the stack pointer.  That combination is
 therefore NOT driven here (it would be the harness, not the pipeline, that is
-wrong); see DESIGN note in the builder report.
+wrong).  Graphs with an explicit jump to a location outside the graph
+("incomplete leaf") are only given to the plain pipeline.
+
+[weakened on purpose] a silent store (writes the bytes the location already
+holds; `@[p] = @[p]` is dropped by AssignBlock.simplify as a self-assignment) is
+not counted as a memory write, on either side.
+
+A failure attributed to ssa_to_unssa is keyed by mechanism monitors that watch
+UnSSADiGraph from outside: every Phi source must be copied at the end of its
+parent after insert_parallel_copy ("parallel copies of a Phi lost"), and an
+independent liveness on the graph before replace_merge_sets must not find a
+member of a merge set live after the definition of another ("interfering
+variables coalesced").
 
 "The variable that stands for register R" at the exit of an SSA-pipeline
 result: the most recently assigned variable V on the executed path with
